@@ -17,6 +17,7 @@ import (
 	"strings"
 	"time"
 
+	mxj "github.com/clbanning/mxj/v2"
 	"verif/mc/core"
 
 	rt "github.com/clbanning/mxj/v2/zzverifrt"
@@ -326,6 +327,10 @@ func main() {
 		os.Exit(0)
 	case "racepass":
 		racePass()
+	case "vector":
+		for _, e := range mxj.VerifState() {
+			fmt.Println(e)
+		}
 	case "c18cold":
 		var names []string
 		json.Unmarshal([]byte(os.Args[2]), &names)
